@@ -31,7 +31,7 @@ var hostileArgs = []string{
 }
 
 // keys of each type prepared by the setup so that every command meets every key type
-var typedKeys = []string{"st", "ls", "hs", "ss", "missing", "num"}
+var typedKeys = []string{"st", "ls", "hs", "ss", "missing", "num", "empty"}
 
 func (g *Gen) hostileCmd() []string {
 	name := strings.Fields(allCommands[g.r.IntN(len(allCommands))])
@@ -106,9 +106,25 @@ func (g *Gen) targetedHostile() []string {
 
 // restorePayload: DUMP-like payloads with a valid trailer but arbitrary type and length bytes
 func (g *Gen) restorePayload() string {
-	body := []byte{byte(g.r.IntN(256)), byte(g.r.IntN(256)), byte(g.r.IntN(4))}
-	for i := 0; i < g.r.IntN(12); i++ {
-		body = append(body, byte(g.r.IntN(256)))
+	// version byte, type byte, 4-byte length, content, 8-byte trailer. An attacker
+	// who has seen DUMP output (or the source) can produce a matching trailer, so
+	// most payloads carry one: rotate-left-10/xor over everything before it.
+	body := []byte{1, byte([]int{1, 2, 4, 8, 0, 3, 255, 16}[g.r.IntN(8)])}
+	ln := []uint32{0, 1, 2, 5, 6, 100, 0x7fffffff, 0xffffffff, 0x80000000}[g.r.IntN(9)]
+	body = append(body, byte(ln>>24), byte(ln>>16), byte(ln>>8), byte(ln))
+	for i := 0; i < g.r.IntN(8); i++ {
+		body = append(body, byte('a'+g.r.IntN(26)))
+	}
+	if g.chance(5) {
+		return string(body) + "12345678"
+	}
+	var sum uint64
+	for _, b := range body {
+		sum = sum<<10 | sum>>54
+		sum ^= uint64(b)
+	}
+	for i := 7; i >= 0; i-- {
+		body = append(body, byte(sum>>(8*uint(i))))
 	}
 	return string(body)
 }
@@ -133,7 +149,7 @@ func genHostilePlan(seed uint64, thorough bool) *Plan {
 	p.Knobs.Sticky = []int{0, 40, 80}[g.r.IntN(3)]
 	p.Knobs.Frag = g.chance(3)
 	// setup: typed keys in db 0
-	setup := []Item{cmdItem("SET", "st", "hello"), cmdItem("RPUSH", "ls", "a", "b", "c"), cmdItem("HSET", "hs", "f", "1", "g", "x"), cmdItem("SADD", "ss", "m1", "m2"), cmdItem("SET", "num", "10"), {Op: "barrier", N: 1}}
+	setup := []Item{cmdItem("SET", "st", "hello"), cmdItem("RPUSH", "ls", "a", "b", "c"), cmdItem("HSET", "hs", "f", "1", "g", "x"), cmdItem("SADD", "ss", "m1", "m2"), cmdItem("SET", "num", "10"), cmdItem("SET", "empty", ""), {Op: "barrier", N: 1}}
 	p.Clients = append(p.Clients, Client{Name: "setup", Items: setup})
 	// victims on their own key prefix
 	nv := 1 + g.r.IntN(2)
@@ -188,7 +204,29 @@ func genHostilePlan(seed uint64, thorough bool) *Plan {
 				if touchesVictims(c) {
 					continue
 				}
+				if n := strings.ToUpper(c[0]); n == "HRANDFIELD" || n == "SRANDMEMBER" {
+					// a large negative count legitimately asks for that many elements
+					// (real Redis would produce them too): host-dependent, not generated
+					for i := 2; i < len(c); i++ {
+						if v, err := strconv.ParseInt(c[i], 10, 64); err == nil && v < -1000 && v != -9223372036854775808 {
+							c[i] = "-7"
+						}
+					}
+				}
 				items = append(items, Item{Args: bs(c...), Tag: "hostile"})
+				if strings.EqualFold(c[0], "RESTORE") && len(c) > 1 {
+					for _, probe := range [][]string{{"TYPE", c[1]}, {"GET", c[1]}, {"LRANGE", c[1], "0", "-1"}, {"HGETALL", c[1]}, {"SMEMBERS", c[1]}, {"LLEN", c[1]}, {"STRLEN", c[1]}, {"DUMP", c[1]}, {"COPY", c[1], "rcopy", "REPLACE"}, {"DEL", c[1]}} {
+						if g.chance(2) {
+							items = append(items, Item{Args: bs(probe...), Tag: "hostile"})
+						}
+					}
+				}
+				if g.chance(12) {
+					// the legitimate round trip: DUMP a key of any type, RESTORE it elsewhere, use it
+					k := typedKeys[g.r.IntN(len(typedKeys))]
+					items = append(items, Item{Args: bs("DUMP", k), Tag: "hostile"}, Item{Args: bs("RESTORE", "rt", "0", "$prev", "REPLACE"), Tag: "hostile"},
+						Item{Args: bs("TYPE", "rt"), Tag: "hostile"}, Item{Args: bs("LRANGE", "rt", "0", "-1"), Tag: "hostile"}, Item{Args: bs("HGETALL", "rt"), Tag: "hostile"}, Item{Args: bs("SMEMBERS", "rt"), Tag: "hostile"}, Item{Args: bs("GET", "rt"), Tag: "hostile"})
+				}
 			}
 			items = append(items, Item{Args: bs("PING"), Tag: "alive"})
 			p.Clients = append(p.Clients, Client{Name: "attacker-args", Items: items, Depth: 1 + g.r.IntN(4)})
